@@ -716,6 +716,15 @@ C05_BlockedOnlyWhenFull ==
         ELSE \/ ws[s].rev = 1 /\ ws[s].sBytes - ws[s].cWuD = ws[s].win
              \/ cfg.cap > 0 /\ q.qs2c >= cfg.cap
 
+\* once the application has read everything and nothing is in flight, the sender's whole window
+\* is available again: every data byte has been credited
+C05_WindowRestored ==
+  (q.at /\ q.parked = <<>> /\ q.qc2s = 0 /\ q.qs2c = 0 /\ q.blocked = <<>> /\ RealCli /\ RealSrv /\ tun.causes = {} /\ ~tun.marshalFail) =>
+     \A s \in OSids : (ws[s].rev = 1 /\ ws[s].rpc \in ORpcs /\ ws[s].cliEnd = "" /\ ws[s].sClose = 0 /\ ~ws[s].cancelDeliv) =>
+        LET R == rp[ws[s].rpc] IN
+        /\ (~ws[s].halfDeliv /\ Len(R.gotS) = Len(R.sentC) /\ R.errC = 0) => ws[s].cBytes = ws[s].sWuD
+        /\ (Len(R.gotC) = Len(R.sentS) /\ R.errS = 0) => ws[s].sBytes = ws[s].cWuD
+
 \* ---- C08 -------------------------------------------------------------------
 C08_IdsIncreasing == ~BadHas("ids.increasing") /\ ~BadHas("ids.dup")
 C08_NewFirst == ~BadHas("newfirst")
@@ -961,6 +970,7 @@ Formulas == [
   C06_ChunkMax |-> C06_ChunkMax, C06_SenderWithinWindow |-> C06_SenderWithinWindow,
   C06_CreditBounded |-> C06_CreditBounded,
   C05_CreditExact |-> C05_CreditExact, C05_BlockedOnlyWhenFull |-> C05_BlockedOnlyWhenFull,
+  C05_WindowRestored |-> C05_WindowRestored,
   C08_IdsIncreasing |-> C08_IdsIncreasing, C08_NewFirst |-> C08_NewFirst,
   C08_AtMostOneInvocation |-> C08_AtMostOneInvocation, C08_RightHandler |-> C08_RightHandler,
   C11_Revision |-> C11_Revision, C11_LegacyClean |-> C11_LegacyClean, C11_SettingsIff |-> C11_SettingsIff,
